@@ -186,8 +186,12 @@ def run(ctx, rep):
                                               init_env={fkey: isf}, facts=facts,
                                               extra_consts=(4085, 65525, 0x0FFFFFFF))
                 bad = []
+                from rules.panics import panic_kind as _pk
+                pcalls = [t_ for b_, t_ in VT.calls() if _pk(t_.get('callee'))]
+                dbg_only = bool(pcalls) and all((t_['span'].get('expn') or '').startswith('debug_assert') for t_ in pcalls)
                 for a, b, o in rows:
-                    o = set(x for x in o if x not in ('MAYPANIC', ))
+                    # (a path that ends in the failure of a `debug_assert!` is not an outcome of the release build)
+                    o = set(x for x in o if x not in ('MAYPANIC', ) and not (dbg_only and x == 'DIVERGE'))
                     for wa, wb, wo in want:
                         lo, hi = max(a, wa), min(b, wb)
                         if lo <= hi:
